@@ -339,10 +339,10 @@ func (w *W) c09Streams(th bool) []*c09Stream {
 			total += len(d)
 		}
 		add(c09Build("over-20MiB", lines, "\n", true))
-		// one line larger than the 10 MiB buffer, fetched by the read-until-newline step
-		big := `{"big":"` + strings.Repeat("x", 11<<20) + `"}`
-		add(c09Build("line-over-10MiB", []string{`{"a":1}`, big, `{"z":2}`}, "\n", true))
 	}
+	// one line larger than the 10 MiB read buffer, fetched by the read-until-newline step
+	big := `{"big":"` + strings.Repeat("x", 11<<20) + `"}`
+	add(c09Build("line-over-10MiB", []string{`{"a":1}`, big, `{"z":2}`}, "\n", true))
 	return out
 }
 
